@@ -90,6 +90,24 @@ func (d *driver) do(op string) (out string) {
 			out = "PANIC"
 		}
 	}()
+	switch op {
+	case "Zb": // reset with a malformed `return` parameter: 400, log untouched
+		rec := httptest.NewRecorder()
+		d.resetH.ServeHTTP(rec, httptest.NewRequest("DELETE", "/logs/reset?return=yes", nil))
+		return fmt.Sprintf("h%d", rec.Code)
+	case "Zm": // reset handler with a method it does not allow: 405, log untouched
+		rec := httptest.NewRecorder()
+		d.resetH.ServeHTTP(rec, httptest.NewRequest("GET", "/logs/reset?return=true", nil))
+		return fmt.Sprintf("h%d", rec.Code)
+	case "Em": // export handler with a method it does not allow: 405, log untouched
+		rec := httptest.NewRecorder()
+		d.exportH.ServeHTTP(rec, httptest.NewRequest("POST", "/logs", nil))
+		return fmt.Sprintf("h%d", rec.Code)
+	case "Zp": // POST (not DELETE) reset returning the completed entries
+		rec := httptest.NewRecorder()
+		d.resetH.ServeHTTP(rec, httptest.NewRequest("POST", "/logs/reset?return=1", nil))
+		return decodeHAR(rec)
+	}
 	switch op[0] {
 	case 'Q':
 		id := op[1:]
@@ -303,6 +321,21 @@ func main() {
 		kind := "SEQ"
 		if k%3 == 2 {
 			kind = "HTTP"
+			// refused handler calls (malformed parameter, wrong method) must leave the log alone
+			for i := range ops {
+				switch r.Intn(12) {
+				case 0:
+					ops[i] = "Zb"
+				case 1:
+					ops[i] = "Zm"
+				case 2:
+					ops[i] = "Em"
+				case 3:
+					if ops[i] == "X" {
+						ops[i] = "Zp"
+					}
+				}
+			}
 		}
 		emit("rnd", append([]string{kind}, stamp(ops)...))
 	}
